@@ -135,6 +135,9 @@ def has_subterm(t, sub):
     return any(x == sub for x in subterms(t))
 
 
+TEXT = "<text>"     # a string whose content the interpreter did not compute (log messages ...)
+
+
 class IterV:
     def __init__(self, items):
         self.items = list(items)
@@ -465,7 +468,7 @@ class Interp:
         full = n + "." + attr
         if full in ("os.path", "collections.abc"):
             return ModuleV(full)
-        if full in ("collections.OrderedDict",):
+        if full.endswith(".OrderedDict"):
             return Builtin("dict", dict)
         if full in _PURE_EXT:
             return Builtin(full, _PURE_EXT[full])
@@ -824,7 +827,9 @@ class Interp:
             if n.split(".")[-1] in ("append", "add", "extend", "insert", "update", "discard", "remove", "__setitem__", "appendleft") or n in ("list", "tuple", "dict", "set", "frozenset", "sorted", "reversed", "bool"):
                 pass    # containers may hold symbolic values
             else:
-                return Sym(("call", ("ext", n), tuple(term_of(v) for v in args), tuple((k, term_of(v)) for k, v in sorted(kwargs.items()))))
+                r = Sym(("call", ("ext", n), tuple(term_of(v) for v in args), tuple((k, term_of(v)) for k, v in sorted(kwargs.items()))))
+                self.sym_calls.append((f, list(args), dict(kwargs), node, self.qual(), r))
+                return r
         try:
             return f.fn(*args, **kwargs)
         except Exception as e:   # the builtin's own exception, raised inside the interpreted program
@@ -1019,6 +1024,16 @@ class Interp:
             finally:
                 if s.finalbody:
                     self.exec_block(s.finalbody, frame)
+        elif isinstance(s, ast.With):
+            for item in s.items:
+                cm = self.eval(item.context_expr, frame)
+                if not isinstance(cm, Sym):
+                    raise NotEvaluable("with-statement over %r" % (cm,))
+                entered = Sym(("call", ("attr", cm.term, "__enter__"), (), ()))
+                self.sym_calls.append((Sym(("attr", cm.term, "__enter__")), [], {}, s, self.qual(), entered))
+                if item.optional_vars is not None:
+                    self.assign(item.optional_vars, entered, frame)
+            self.exec_block(s.body, frame)
         elif isinstance(s, ast.Assert):
             if not self.truth(self.eval(s.test, frame), s.test):
                 raise PyRaise("AssertionError", s)
@@ -1087,10 +1102,27 @@ class Interp:
         return d
 
     def x_JoinedStr(self, e, f):
+        out, exact = "", True
         for v in e.values:
-            if isinstance(v, ast.FormattedValue):
-                self.eval(v.value, f)
-        return "<text>"
+            if isinstance(v, ast.Constant):
+                out += str(v.value)
+                continue
+            val = self.eval(v.value, f)
+            if exact and type(val) in (str, int, bytes, bool, float, type(None)) and (v.format_spec is None or all(isinstance(x, ast.Constant) for x in v.format_spec.values)):
+                spec = "" if v.format_spec is None else "".join(str(x.value) for x in v.format_spec.values)
+                if v.conversion == 114:
+                    val = repr(val)
+                elif v.conversion == 115:
+                    val = str(val)
+                elif v.conversion == 97:
+                    val = ascii(val)
+                try:
+                    out += format(val, spec)
+                except Exception as x:
+                    raise PyRaise(type(x).__name__, e)
+            else:
+                exact = False
+        return out if exact else TEXT
 
     def x_FormattedValue(self, e, f):
         self.eval(e.value, f)
@@ -1133,7 +1165,13 @@ class Interp:
 
     def binop(self, op, a, b, node):
         if isinstance(op, ast.Mod) and isinstance(a, str):
-            return "<text>"
+            flat = list(b) if isinstance(b, tuple) else [b]
+            if a != TEXT and all(type(x) in (str, int, bytes, bool, float, type(None)) for x in flat) and TEXT not in flat:
+                try:
+                    return a % b
+                except Exception as x:
+                    raise PyRaise(type(x).__name__, node)
+            return TEXT
         for x, y in ((a, b), (b, a)):
             if isinstance(x, Role):
                 if isinstance(op, ast.BitAnd) and isinstance(y, int) and not isinstance(y, (Role, bool)) and y == 0xFFFFFFFF and 0 <= int(x) <= y:
